@@ -220,8 +220,26 @@ class Tensor(Funsor, metaclass=TensorMeta):
 
         # Handle diagonal variable substitution
         var_counts = Counter(v for v in subs.values() if isinstance(v, Variable))
+        # A variable or slice is substituted by renaming only if its name does
+        # not collide with an input that keeps its name during the renaming.
+        renamed = {k for k, v in subs.items() if isinstance(v, (Variable, Slice))}
+        while True:
+            clashing = {
+                k
+                for k in renamed
+                if subs[k].name in self.inputs and subs[k].name not in renamed
+            }
+            if not clashing:
+                break
+            renamed -= clashing
         subs = OrderedDict(
-            (k, self.materialize(v) if var_counts[v] > 1 else v)
+            (
+                k,
+                self.materialize(v)
+                if var_counts[v] > 1
+                or (isinstance(v, (Variable, Slice)) and k not in renamed)
+                else v,
+            )
             for k, v in subs.items()
         )
 
